@@ -186,6 +186,8 @@ def make_component(c, layout, variant):
     shadowed = layout.get("shadow", {}).get(c, [])        # base-class marker shadowed by a plain class attribute
     base_ns = {}
     ns = {"__annotations__": {"shared": Shared}}
+    if "g" in plain:
+        ns["__annotations__"]["g"] = int        # an injected attribute (robot attribute '<component>_g'): a plain one
     for a, d in resets.items():
         (base_ns if a in inherited else ns)[a] = will_reset_to(d)
         if a in redeclared and a not in inherited:
@@ -198,7 +200,8 @@ def make_component(c, layout, variant):
 
     def __init__(self):
         for a, v in plain.items():
-            setattr(self, a, v)
+            if a != "g":
+                setattr(self, a, v)
         for a in initassign:
             setattr(self, a, 55)
     ns["__init__"] = __init__
@@ -361,6 +364,9 @@ def make_robot(layout, uid):
 
     def createObjects(self):
         self.shared = Shared()
+        for c in comps:
+            if "g" in layout["plain"][c]:
+                setattr(self, c + "_g", layout["plain"][c]["g"])
 
     def mk(name):
         def f(self):
@@ -456,8 +462,15 @@ class RandomPolicy:
         self.ended = False
         # themed histories make rare combinations likely: the same mode entered again and again with a callback of
         # that mode failing every time (FMS attached), or two modes in quick alternation
-        self.theme = rng.choice([None, None, None, "repeat", "pingpong"])
+        self.theme = rng.choice([None, None, None, "repeat", "pingpong", "fmsmid"])
         self.pair = rng.sample(["disabled", "auto", "teleop", "test"], 2)
+        if self.theme == "fmsmid":
+            # the FMS attaches in the middle of an enabled mode in which some callback fails every time
+            self.fms_at = rng.randint(2, 5)
+            self.pair = [rng.choice(["teleop", "auto"]), "disabled"]
+            fsites = [("feedback:" + g["key"], g["o"]) for g in layout["feedbacks"]]
+            fsites += [("execute", c) for c in layout["comps"]] + [("robotPeriodic", "robot"), ("teleopPeriodic", "robot")]
+            self.late_fault = rng.choice(fsites)
         if self.theme == "repeat":
             self.pair = [rng.choice(["auto", "auto", "teleop"]), rng.choice(["disabled", "teleop", "test", "disabled"])]
             if self.pair[0] == self.pair[1]:
@@ -509,6 +522,20 @@ class RandomPolicy:
         if self.nwaits < 0:
             return None
         evs = []
+        if self.theme == "fmsmid":
+            w = getattr(self, "nw", 0)
+            self.nw = w + 1
+            if w == 0 and self.fms:
+                self.fms = False
+                evs.append({"e": "fms", "b": False})
+            if w == 1:
+                self.cur = self.pair[0]
+                evs.append({"e": "ds", "m": self.cur})
+            if w == self.fms_at:
+                self.fms = True
+                evs.append({"e": "fms", "b": True})
+                self.fault[self.late_fault] = "all"      # from now on
+            return evs
         if getattr(self, "force_fms", False) and not self.fms:
             self.fms = True
             evs.append({"e": "fms", "b": True})
@@ -516,6 +543,8 @@ class RandomPolicy:
             m = self.pair[1] if self.cur == self.pair[0] else self.pair[0]
             self.cur = m
             evs.append({"e": "ds", "m": m})
+            if self.theme == "repeat" and self.layout["modes"] and rng.random() < 0.4:
+                evs.append({"e": "sel", "s": rng.choice(self.layout["modes"] + ["", ""])})
         elif rng.random() < 0.30:
             m = rng.choice([x for x in ("disabled", "auto", "teleop", "test") if x != self.cur])
             self.cur = m
@@ -594,6 +623,8 @@ def gen_layout(rng, uid):
         resets[c] = {"r%d" % j: rng.choice([0, 0, 1, 5]) for j in range(nr)}
         inherit[c] = [a for a in resets[c] if rng.random() < 0.3]
         plain[c] = {"p": rng.randint(10, 19)}
+        if rng.random() < 0.4:
+            plain[c]["g"] = rng.randint(20, 29)
         redeclare[c] = [a for a in resets[c] if a not in inherit[c] and rng.random() < 0.3]
         initassign[c] = [a for a in resets[c] if rng.random() < 0.25]
         shadow[c] = ["p"] if rng.random() < 0.25 else []
